@@ -257,28 +257,41 @@ PROPS["C03"] = {
 PROPS["C07"] = {
     "lean_modules": ["MithrilModel.Properties.C07"],
     "theorems": ["C07.C07_iff", "C07.C07_stake_from_distribution", "C07.C07_window", "C07.C07_window_empty",
-                 "C07.C07_kes_bound_to_opcert", "C07.C07_duplicate_rejected", "Registration.register_iff"],
+                 "C07.C07_kes_bound_to_opcert", "C07.C07_duplicate_rejected", "Registration.register_iff",
+                 "C07.C07_aggregator_store", "RegLeader.run_inv", "RegLeader.verifier_ok_certified",
+                 "C07.C07_announced_evolutions_counterexample_before_repair", "C07.C07_foreign_duplicate_counterexample_before_repair",
+                 "C07.C07_aggregator_repaired"],
     "level_text": "Acceptance of a registration is proved EQUIVALENT, in Lean, to the conjunction the property lists (an iff, so a missing or "
                   "mis-bound conjunct cannot hide), with the recorded stake read from the distribution only and the KES window exactly e-1..e+1 "
-                  "capped at 64. The decision model is compared (verdict, error class, party id, recorded stake) with the real "
-                  "KeyRegWrapper::register, built without allow_skip_signer_certification, on a valid registration and on every "
-                  "single-component alteration and all 2-splices of two pools' components, with real cold/KES/BLS keys; every accepted case "
-                  "is re-checked clause by clause with the real primitives.",
+                  "capped at 64; and, for the aggregator (verifier + leader + stores as a state machine), an invariant proved for EVERY history of "
+                  "rounds, chain KES periods and attempts: every stored registration meets every clause w.r.t. the values stored for it, one "
+                  "registration per (round, party), no key held for two parties of a round. The decision model is compared (verdict, error class, "
+                  "party id, recorded stake) with the real KeyRegWrapper::register, built without allow_skip_signer_certification, on a valid "
+                  "registration and on every single-component alteration and all 2-splices of two pools' components, with real cold/KES/BLS "
+                  "keys; the leader model is compared (every outcome, every stored row, the recorder) with the real "
+                  "MithrilSignerRegistrationLeader + MithrilSignerRegistrationVerifier over the real sqlite stores on generated histories; every "
+                  "accepted case and every stored row is re-checked clause by clause with the real primitives, and SignerBuilder::new must accept "
+                  "the stored set.",
     "level_note": "Ed25519 (op-cert), Sum6 KES verification, BLS proof of possession and the bech32 pool id are uninterpreted primitives of the "
-                  "model whose verdicts the harness obtains from the real libraries. The aggregator's MithrilSignerRegistrationVerifier "
-                  "(KES period arithmetic around this function) is exercised in the aggregator harness, not here.",
-    "harness": [("harness", "c07")],
+                  "models whose verdicts the harnesses obtain from the real libraries. The aggregator harness shares the aggregator's dev-dependency "
+                  "feature allow_skip_signer_certification (uncertified registrations are then accepted by design; they are compared by K, "
+                  "excluded from S; the production path is the one c07 builds).",
+    "harness": [("harness", "c07"), ("harness-agg", "c07b")],
     "anchors": ["mithril-common/src/crypto_helper/cardano/key_certification.rs", "mithril-common/src/crypto_helper/cardano/opcert.rs",
                 "mithril-common/src/crypto_helper/cardano/kes/verifier_standard.rs", "mithril-stm/src/protocol/key_registration/registration_entry.rs",
-                "mithril-stm/src/protocol/key_registration/register.rs"],
-    "rule": "for op-cert start periods {0,7} (+100 thorough) and signed KES evolutions {0,1,5,63} (+2,30,62): the valid registration, announced "
+                "mithril-stm/src/protocol/key_registration/register.rs", "mithril-aggregator/src/services/signer_registration/verifier.rs",
+                "mithril-aggregator/src/services/signer_registration/leader.rs"],
+    "rule": "c07: for op-cert start periods {0,7} (+100 thorough) and signed KES evolutions {0,1,5,63} (+2,30,62): the valid registration, announced "
             "evolutions none/0/1/t-2..t+2/62..66/2^32/2^64-1, op-cert missing / each field altered / other pool's, KES signature missing / other "
             "pool's key / over another key, verification key and proof of possession swapped (with and without re-signing), all 2-splices, "
-            "distributions with the pool absent / stake 0 / huge, claimed party ids, duplicate keys; all non-trivial; distinct request lines",
+            "distributions with the pool absent / stake 0 / huge, claimed party ids, duplicate keys. c07b: histories of one round (sometimes not "
+            "opened, closed or re-opened in between, epoch mismatches) with 2-7 attempts drawn from four pools' valid registrations, announced "
+            "evolutions altered, another pool's key copied, re-registration with another key, claimed ids, invalid components, uncertified "
+            "attempts; chain period inside / at the edges of / outside the KES window or absent; all non-trivial; distinct request lines",
     "trivial_tags": [],
-    "trusted_base": ["rustc/cargo; harness bin c07; ed25519-dalek, kes-summed-ed25519, blst, bech32"],
-    "assumptions": ["mithril-common built without the allow_skip_signer_certification feature (as the harness does)"],
-    "goals_not_proved": ["C07_aggregator_verifier (aggregator-side wrapper = this function with e = current - start): not modelled here"],
+    "trusted_base": ["rustc/cargo; harness bins c07, c07b; ed25519-dalek, kes-summed-ed25519, blst, bech32, sqlite"],
+    "assumptions": ["c07: mithril-common built without the allow_skip_signer_certification feature", "c07b: built with it (cargo feature unification with the aggregator's test extensions)"],
+    "goals_not_proved": ["the follower aggregator's synchronisation path (signers copied from a leader) is not modelled"],
 }
 
 PROPS["C06"] = {
@@ -377,10 +390,24 @@ PROPS["C11"] = {
 }
 
 
-# property configurations contributed as separate files: props.d/Cxx.py defines `CONFIG = {...}`
+# property configurations contributed as separate files: props.d/Cxx.py defines `CONFIG = {...}`;
+# props.d/Cxx+<name>.py defines `EXTEND = {...}`: lists are appended to, strings are appended (after a space) to
+# the entry of Cxx (further harness bins, theorems, modules, anchors for layers built separately)
 import glob as _glob, os as _os, importlib.util as _ilu
-for _f in sorted(_glob.glob(_os.path.join(_os.path.dirname(_os.path.abspath(__file__)), "props.d", "C*.py"))):
-    _spec = _ilu.spec_from_file_location("props_" + _os.path.basename(_f)[:-3], _f)
+_files = sorted(_glob.glob(_os.path.join(_os.path.dirname(_os.path.abspath(__file__)), "props.d", "C*.py")))
+for _f in [f for f in _files if "+" not in _os.path.basename(f)] + [f for f in _files if "+" in _os.path.basename(f)]:
+    _name = _os.path.basename(_f)[:-3]
+    _spec = _ilu.spec_from_file_location("props_" + _name.replace("+", "_"), _f)
     _m = _ilu.module_from_spec(_spec)
     _spec.loader.exec_module(_m)
-    PROPS[_os.path.basename(_f)[:-3]] = _m.CONFIG
+    if "+" in _name:
+        _base = PROPS[_name.split("+")[0]]
+        for _k, _v in _m.EXTEND.items():
+            if isinstance(_v, list):
+                _base[_k] = list(_base.get(_k, [])) + [x for x in _v if x not in _base.get(_k, [])]
+            elif isinstance(_v, str):
+                _base[_k] = (_base.get(_k, "") + " " + _v).strip()
+            elif isinstance(_v, dict):
+                _d = dict(_base.get(_k, {})); _d.update(_v); _base[_k] = _d
+    else:
+        PROPS[_name] = _m.CONFIG
